@@ -1,6 +1,7 @@
 import HC.Proofs.Frame
 import HC.Proofs.Bitfield
 import HC.Proofs.LiveRefine
+import HC.Proofs.Reopen
 /-!
 # C01 — log contents equal an append-only list model, across close and reopen
 
@@ -90,6 +91,28 @@ theorem created_refines (C : Crypto) (hC : HashWF C) (pk sk : Bytes) (ops : List
       ∧ (runC C (c, ({} : Disk).applyAll j) ops).2 = (runA {} ops).2 := by
   obtain ⟨c, j, h1, h2⟩ := created C pk sk
   exact ⟨c, j, h1, (live_refinement C hC ops c _ {} h2 hv).1⟩
+
+/-- **C01, reopen part.**  If the oplog opens to the header of the last flush and the entries logged
+    since (what C02's protocol theorems and C06's layout theorems establish at their level), the tree
+    and bitfield stores hold the state of that flush, the entries lead from that state to the log
+    `a` (`Reopen.Trace`: each entry is exactly what an append or a clear logs), and the data store holds
+    `a`'s held blocks, then `Hypercore::new` yields a core satisfying `Rep` for `a` — from which
+    `live_refinement` continues.  Replay = add the entry's nodes, redo the bitfield update, `truncate` to
+    the new length (`full_roots` = reference roots, proved in `FullRoots`) and commit. -/
+theorem reopen_refines (C : Crypto) (hC : HashWF C) (d : Disk) (ost : Oplog.State) (hf : Header) (es : List Entry)
+    (a0 a : Abs) (sk : Bytes)
+    (hlog : Oplog.openLog none d.oplog.toList = .ok ⟨ost, hf, [], es⟩)
+    (hlen : hf.tree.length = a0.blocks.size) (hsig : hf.tree.signature = [] ∨ hf.tree.signature.length = 64)
+    (hsec : hf.secret = some sk)
+    (hN : Offsets.NodesOK C a0.blocks {} d.tree)
+    (hbits : ∀ i, (Bitfield.ofFile d.bitfield).get i = a0.held i) (hlt : ∀ i, a0.held i = true → i < a0.blocks.size)
+    (hcontig : Core.FirstMissing (Bitfield.ofFile d.bitfield) hf.contiguous)
+    (hsmall0 : Small a0) (htrace : Reopen.Trace C a0 es a)
+    (hdata : ∀ i, a.held i = true → ∀ k, k < Offsets.sz a.blocks i →
+      Offsets.psum a.blocks i + k < d.data.size ∧ d.data.byte (Offsets.psum a.blocks i + k) = (a.blocks.getD i []).getD k 0)
+    (hsmall : Small a) :
+    ∃ c', Core.openCore C none d = .ok (c', []) ∧ Rep C c' d a :=
+  Reopen.reopen_refines C hC d ost hf es a0 a sk hlog hlen hsig hsec hN hbits hlt hcontig hsmall0 htrace hdata hsmall
 
 /-- non-vacuity of the hypothesis on the hash functions: a record with constant non-zero 32-byte digests -/
 example : HashWF { leaf := fun _ => List.replicate 32 1, parent := fun _ _ _ => List.replicate 32 2, tree := fun _ => [],
